@@ -505,6 +505,26 @@ func (w *MWorld) applyStack(op Op, self string, el ElemFn) []Alt {
 		}
 		return one(n, self)
 
+	case "Marshal":
+		// an already initialised receiver gains the decoded Stack as one new
+		// element (through Push, so read-only, capacity and no-nesting apply)
+		if len(op.Args) == 0 {
+			return one(n, "err")
+		}
+		if _, has := m.Pol["marshal"]; has {
+			return nil
+		}
+		if _, has := m.Pol["push"]; has {
+			return nil
+		}
+		if op.Args[0].K != "s" {
+			return nil
+		}
+		if !ro && !m.Opt["nnest"] && !m.full() {
+			m.Elems = append(m.Elems, MElem{D: wild, IsStack: true})
+		}
+		return one(n, "nil")
+
 	case "Transfer":
 		if len(op.Args) < 1 {
 			return nil
